@@ -52,7 +52,7 @@ struct World {
   std::vector<std::vector<int>> consumed, returned; std::vector<std::vector<uint64_t>> ret_stamp;
   std::vector<std::pair<int, int>> order;
   bool once = true, single = true, covered = true, join_ok = true, gap_ok = true; int gaps = 0;
-  std::vector<std::thread> spawned;
+  std::vector<std::thread*> spawned; size_t nspawn = 0;   // slots pre-sized: creation is a scheduling point
 
   static uint64_t enc(size_t t, size_t i) { return ((uint64_t)(t + 1) << 32) | (uint64_t)i; }
   bool dec(uint64_t v, size_t* t, size_t* i) const {
@@ -100,7 +100,8 @@ struct FaultyExecutor : public Executor {
     }
     auto* fn = new MoveOnlyFunction<void(void)>(std::move(function));
     World* ww = w;
-    w->spawned.emplace_back([fn, ww] {
+    size_t slot = w->nspawn++;
+    w->spawned[slot] = new std::thread([fn, ww] {
       (*fn)();
       --ww->live; ww->stale = false;
       ww->check_covered();
@@ -131,6 +132,7 @@ int main(int argc, char** argv) {
     w->faults = strcmp(faults, "-") == 0 ? "" : faults;
     w->async = mode[0] == 'A';
     w->in_exec.assign(nt, 0);
+    { size_t nsig = 0; for (auto& th : w->threads) nsig += th.size(); w->spawned.assign(nsig + 1, nullptr); }
     w->consumed.resize(nt); w->returned.resize(nt); w->ret_stamp.resize(nt);
     for (size_t t = 0; t < nt; ++t) { w->consumed[t].assign(w->threads[t].size(), 0); w->returned[t].assign(w->threads[t].size(), 0); w->ret_stamp[t].assign(w->threads[t].size(), 0); }
     FaultyExecutor ex; ex.w = w;
@@ -181,7 +183,7 @@ int main(int argc, char** argv) {
     }
     verif::Options opt; opt.seed = seed; opt.strategy = strategy; opt.max_steps = 300000;
     verif::Result r = verif::run(bodies, opt);
-    for (auto& th : w->spawned) th.join();
+    for (auto* th : w->spawned) if (th) { th->join(); delete th; }
     std::string out;
     for (size_t t = 0; t < nt; ++t) {
       for (size_t i = 0; i < w->threads[t].size(); ++i) out += w->threads[t][i].res + (i + 1 < w->threads[t].size() ? "," : "");
